@@ -161,6 +161,8 @@ impl Property for C05 {
         let mut restarts = 0;
         let mut growth = 0u64;
         let check = |w: &World| -> Result<(), Failure> { classify_bans(w) };
+        // all peers are honest and on one branch: the heaviest tip the client has adopted so far is never given up for a lighter one
+        let mut best_td = w.storage().get_last_state().0;
         for step in &case.steps {
             match step {
                 Step::Deliver(i) => {
@@ -223,6 +225,14 @@ impl Property for C05 {
                         }
                     }
                 }
+            }
+            {
+                let (td, tip) = w.storage().get_last_state();
+                if td < best_td {
+                    let n: u64 = tip.raw().number().unpack();
+                    return Err(Failure::new("tip-moved-back-to-a-lighter-header", format!("after step {:?}: stored tip #{} total difficulty {:#x}, was {:#x} before (all peers honest, one branch)", step, n, td, best_td)));
+                }
+                best_td = td;
             }
             if let Err(f) = check(&w) {
                 // a known finding ends the history (the peer is gone); anything else is a violation
